@@ -13,6 +13,7 @@ import ApiFu.Common.Sexp
 import ApiFu.C06.Driver
 import ApiFu.C12.Walks
 import ApiFu.C12.WalksFields
+import ApiFu.C12.WalksSubscription
 
 open ApiFu ApiFu.C06 ApiFu.C12
 
@@ -51,11 +52,12 @@ def oraclesOf (finfo sinfo : List (Pos × String)) : Oracles :=
       | _, _ => .err }
 
 def fieldsReply (O : Oracles) (d : Document) : String :=
-  match fieldsCheck O d with
-  | some t =>
-    toString (Sexp.node "fields" [Sexp.ofNat t.sets, Sexp.ofNat t.collect, Sexp.ofNat t.canMergePair,
+  -- site fields.collect is reached by the overlapping-fields check and by the subscription rule
+  match fieldsCheck O d, subscriptionCollect d with
+  | some t, some sub =>
+    toString (Sexp.node "fields" [Sexp.ofNat t.sets, Sexp.ofNat (t.collect + sub), Sexp.ofNat t.canMergePair,
       Sexp.ofNat t.sameShape, Sexp.ofNat t.sameShapePair, Sexp.ofNat t.errors])
-  | none => "none"
+  | _, _ => "none"
 
 def handle? (line : String) : Option String :=
   match Sexp.parse line with
